@@ -19,7 +19,9 @@ size_t g_cj;                                           /* ghost byte index into 
 #define NULL_OR_FRESH(p) ((p) == NULL || __CPROVER_is_fresh(p, sizeof(*(p))))
 #define NULL_OR_FRESH_N(p, n) ((p) == NULL || __CPROVER_is_fresh(p, n))
 #define SN_ZERO_AT(sn) ((sn)->data[0] == 0 && (sn)->data[1] == 0 && (sn)->data[2] == 0 && (sn)->data[3] == 0 && (sn)->data[g_ck] == 0)
-#define SN_MAGIC_OLD(sn) (__CPROVER_old((sn)->data[0]) == 0x22 && __CPROVER_old((sn)->data[1]) == 0x0e && __CPROVER_old((sn)->data[2]) == 0xdc && __CPROVER_old((sn)->data[3]) == 0xf1)
+/* "carries the magic" is stated with the TU's own magic constants (what the *_load functions test), not with literal bytes */
+#define SN_MAGIC_OLD(sn) (__CPROVER_old((sn)->data[0]) == secp256k1_musig_secnonce_magic[0] && __CPROVER_old((sn)->data[1]) == secp256k1_musig_secnonce_magic[1] && __CPROVER_old((sn)->data[2]) == secp256k1_musig_secnonce_magic[2] && __CPROVER_old((sn)->data[3]) == secp256k1_musig_secnonce_magic[3])
+#define PSIG_INITIALISED(ps) ((ps)->data[0] == secp256k1_musig_partial_sig_magic[0] && (ps)->data[1] == secp256k1_musig_partial_sig_magic[1] && (ps)->data[2] == secp256k1_musig_partial_sig_magic[2] && (ps)->data[3] == secp256k1_musig_partial_sig_magic[3])
 
 int secp256k1_musig_partial_sign(const secp256k1_context* ctx, secp256k1_musig_partial_sig *partial_sig, secp256k1_musig_secnonce *secnonce, const secp256k1_keypair *keypair, const secp256k1_musig_keyagg_cache *keyagg_cache, const secp256k1_musig_session *session)
 __CPROVER_requires(CTX_REQ(ctx))
@@ -29,8 +31,8 @@ __CPROVER_assigns(secnonce != NULL: secnonce->data; partial_sig != NULL: partial
 __CPROVER_ensures(__CPROVER_return_value == 0 || __CPROVER_return_value == 1)
 /* wipe: whatever happens, the secnonce handed in is all-zero afterwards */
 __CPROVER_ensures(secnonce != NULL ==> SN_ZERO_AT(secnonce))
-/* no signature on failure */
-__CPROVER_ensures((__CPROVER_return_value == 0 && partial_sig != NULL) ==> partial_sig->data[g_cj] == __CPROVER_old(partial_sig->data[g_cj]))
+/* a failed call produces no signature: the output object is what the caller had, or is not an initialised partial signature */
+__CPROVER_ensures((__CPROVER_return_value == 0 && partial_sig != NULL) ==> (partial_sig->data[g_cj] == __CPROVER_old(partial_sig->data[g_cj]) || !PSIG_INITIALISED(partial_sig)))
 /* a secnonce without the magic (in particular a zeroed = used one) never signs, and is reported */
 __CPROVER_ensures((secnonce == NULL || !SN_MAGIC_OLD(secnonce)) ==> (__CPROVER_return_value == 0 && g_illegal == __CPROVER_old(g_illegal) + 1))
 __CPROVER_ensures(g_illegal == __CPROVER_old(g_illegal) || g_illegal == __CPROVER_old(g_illegal) + 1)
